@@ -94,12 +94,13 @@ int main() {
         tri.reset();
         if (kind == "freud") tri.reset(new Triangulation(d));
         else if (kind == "coxeter") tri.reset(new Coxeter_triangulation<Simplex>(d));
-        else if (kind == "affine" || kind == "chg" || kind == "matrix") {
+        else if (kind == "affine" || kind == "chg" || kind == "matrix" || kind == "offs") {
           Eigen::MatrixXd M(d, d); Eigen::VectorXd off(d);
           for (unsigned i = 0; i < d; i++) for (unsigned j = 0; j < d; j++) M(i, j) = parse_q(a[2 + i * d + j]);
           for (unsigned i = 0; i < d; i++) off(i) = parse_q(a[2 + d * d + i]);
           if (kind == "affine") tri.reset(new Triangulation(d, M, off));
           else if (kind == "matrix") tri.reset(new Triangulation(d, M));   // offset entries must be 0
+          else if (kind == "offs") { tri.reset(new Triangulation(d)); tri->change_offset(off); }   // identity matrix expected: only the offset is changed, after the one-argument constructor
           else { tri.reset(new Triangulation(d)); tri->change_matrix(M); tri->change_offset(off); }
         }
         r = "ok";
